@@ -17,226 +17,167 @@ CLASSES = [
 ]
 
 
-class _NoEval(Exception):
-    pass
+FEATURE_LINE = "chr1\t.\tgene\t1\t2\t.\t+\t.\tID=%s"
 
 
-def _ev(node, line, var):
-    """Evaluate a classification test on a representative line."""
-    if isinstance(node, ast.BoolOp):
-        vals = [_ev(v, line, var) for v in node.values]
-        return all(vals) if isinstance(node.op, ast.And) else any(vals)
-    if isinstance(node, ast.UnaryOp) and isinstance(node.op, ast.Not):
-        return not _ev(node.operand, line, var)
-    if isinstance(node, ast.Name) and node.id == var:
-        return line
-    if isinstance(node, ast.Constant):
-        return node.value
-    if isinstance(node, ast.Tuple):
-        return tuple(_ev(e, line, var) for e in node.elts)
-    if isinstance(node, ast.Compare) and len(node.ops) == 1:
-        a, b = _ev(node.left, line, var), _ev(node.comparators[0], line, var)
-        op = node.ops[0]
-        if isinstance(op, ast.Eq):
-            return a == b
-        if isinstance(op, ast.NotEq):
-            return a != b
-        if isinstance(op, ast.In):
-            return a in b
-        if isinstance(op, ast.NotIn):
-            return a not in b
-        if isinstance(op, ast.Gt):
-            return a > b
-        if isinstance(op, ast.Lt):
-            return a < b
-        if isinstance(op, ast.GtE):
-            return a >= b
-        if isinstance(op, ast.LtE):
-            return a <= b
-    if isinstance(node, ast.Call):
-        if is_name(node.func, "len") and len(node.args) == 1:
-            return len(_ev(node.args[0], line, var))
-        if isinstance(node.func, ast.Attribute) and node.func.attr in ("startswith", "endswith", "strip", "lstrip", "rstrip", "lower", "upper"):
-            recv = _ev(node.func.value, line, var)
-            args = [_ev(a, line, var) for a in node.args]
-            if isinstance(recv, str):
-                return getattr(recv, node.func.attr)(*args)
-    if isinstance(node, ast.Subscript) and isinstance(node.slice, ast.Slice):
-        base = _ev(node.value, line, var)
-        lo = _ev(node.slice.lower, line, var) if node.slice.lower else None
-        hi = _ev(node.slice.upper, line, var) if node.slice.upper else None
-        return base[lo:hi]
-    if isinstance(node, ast.Subscript):
-        base = _ev(node.value, line, var)
-        k = _ev(node.slice, line, var)
-        try:
-            return base[k]
-        except (IndexError, KeyError):
-            raise _NoEval("index")
-    raise _NoEval(norm(node))
+def _run_file(ctx, lines, directives=None, func=None):
+    """One pass of _FileIterator._custom_iter over the given lines (a one-shot stream standing for the open file)."""
+    from ..absint import Interp, Sym, Opaque, StreamVal, Unsupported
+    f = func or require_func(ctx, "iterators._FileIterator._custom_iter")
+    it = Interp(ctx)
+    stream = StreamVal(lines, "file")
+    seen = []
+    it.summaries["iterators._FileIterator.open_function"] = lambda i, pos, kw, node: stream
 
-
-def classify(stmts, line, var):
-    """Walk the statements of the loop body in order for one line class.
-    Returns (outcome, directive_recorded)."""
-    directive = False
-    for st in stmts:
-        if isinstance(st, ast.If):
-            try:
-                t = _ev(st.test, line, var)
-            except _NoEval:
-                exits = [n for n in ast.walk(st) if isinstance(n, (ast.Return, ast.Break, ast.Continue, ast.Yield, ast.YieldFrom))
-                         or (isinstance(n, ast.Call) and call_attr(n) == "_directive_handler")]
-                if exits:
-                    raise
-                continue  # normalisation step (e.g. bytes -> str), not a classification
-            body = st.body if t else st.orelse
-            out, d = classify(body, line, var)
-            directive = directive or d
-            if out is not None:
-                return out, directive
-            continue
-        if isinstance(st, ast.Return):
-            return "stop", directive
-        if isinstance(st, ast.Break):
-            return "stop", directive
-        if isinstance(st, ast.Continue):
-            return "skip", directive
-        for n in ast.walk(st):
-            if isinstance(n, ast.Call) and call_attr(n) == "_directive_handler":
-                directive = True
-            if isinstance(n, (ast.Yield, ast.YieldFrom)):
-                return "feature", directive
-    return None, directive
+    def s_ffl(i, pos, kw, node):
+        seen.append((pos[0], kw.get("dialect")))
+        return Opaque("feature(%s)" % (pos[0].split("ID=")[-1] if isinstance(pos[0], str) else pos[0]), "Feature")
+    it.summaries["feature.feature_from_line"] = s_ffl
+    so = Opaque("self", "obj")
+    so.attrs["directives"] = directives if directives is not None else []
+    so.attrs["data"] = Sym("path", "str", True)
+    so.attrs["dialect"] = Opaque("DIALECT", "dict")
+    try:
+        traces = it.run(f, {}, self_obj=so)
+    except Unsupported as e:
+        ctx.require(False, "_custom_iter outside the analysable subset: %s" % e)
+    ctx.require(len(traces) == 1, "_custom_iter forks on concrete lines (%d paths)" % len(traces))
+    t = traces[0]
+    ys = [getattr(e[1], "name", e[1]) for e in t.events if e[0] == "yield"]
+    return ys, so.attrs["directives"], seen, stream, t
 
 
 def r1(ctx):
+    """The line classification as a decision table: one pass of the file iterator is evaluated for each class of line,
+    followed by a sentinel feature line (is it still reached?)."""
     f = require_func(ctx, "iterators._FileIterator._custom_iter")
-    loops = [n for n in ast.walk(f.node) if isinstance(n, ast.For)]
-    ctx.require(loops, "_custom_iter has no loop over lines")
-    loop = loops[0]
-    var = loop.target.elts[-1].id if isinstance(loop.target, ast.Tuple) else loop.target.id
-    # skip the normalisation prefix (decode / rstrip / bookkeeping assignments)
-    body = loop.body
     for label, line, want in CLASSES:
-        try:
-            out, d = classify(body, line, var)
-        except _NoEval as e:
-            ctx.require(False, "line classification test outside the modelled subset: %s" % e)
-        got = "directive" if (out == "skip" and d) else out if not d else "%s+directive" % out
-        if out is None:
-            got = "falls off the loop body"
-        ctx.ob("R1", got == want, "a %s is classified as: %s" % (label, want), node=loop, func=f,
-               sig="line class %s -> %s" % (label, got))
-    # nothing after a stop is yielded: the stop outcome leaves the generator (return) rather than skipping
-    rets = [n for n in ast.walk(loop) if isinstance(n, (ast.Return, ast.Break))]
-    ctx.ob("R1", bool(rets), "at ##FASTA / '>' iteration ends (return), later lines are never looked at", node=loop, func=f,
-           sig="stop classes end the iteration" if rets else "no terminating exit in the line loop", nontrivial=False)
-    # line terminators are stripped before classification
-    strip = [c for c in calls_in(f.node) if call_attr(c) == "rstrip" and c.args and set(const_str(c.args[0]) or "") >= {"\n"}]
-    cfg = cfg_of(f)
-    tests = [n for n in loop.body if isinstance(n, ast.If)]
-    ok = bool(strip) and bool(tests) and all(cfg.dominates(cfg.node_for(strip[0]).id, cfg.node_for(t).id) for t in tests
-                                             if any(isinstance(x, (ast.Return, ast.Continue)) for x in ast.walk(t)))
-    ctx.ob("R1", ok, "the line terminator is removed before the line is classified", func=f,
-           sig="rstrip of newline dominates the classification" if ok else "classification on unstripped lines")
+        ys, dirs, seen, stream, t = _run_file(ctx, [line + "\n", FEATURE_LINE % "sentinel" + "\n"])
+        reached = "feature(sentinel)" in ys
+        own = [y for y in ys if y != "feature(sentinel)"]
+        if not reached:
+            got = "stop"
+        elif own:
+            got = "feature"
+        elif dirs:
+            got = "directive"
+        else:
+            got = "skip"
+        if own and dirs:
+            got += "+directive"
+        ctx.ob("R1", got == want, "a %s is classified as: %s" % (label, want), func=f, sig="line class %s -> %s" % (label, got))
+        if want == "stop":
+            ctx.ob("R1", not ys and not dirs, "at ##FASTA / '>' iteration ends, later lines are never looked at", func=f,
+                   sig="%s: %d features, %d directives after it" % (label, len(ys), len(dirs)), nontrivial=False)
+    # a whole file: order of features and directives, terminators, dialect
+    lines = ["##gff-version 3\n", "#comment\n", "\n", FEATURE_LINE % "a" + "\r\n", "###\n", FEATURE_LINE % "b" + "\n", "##FASTA\n", ">chr1\n", "ACGT\n", FEATURE_LINE % "c" + "\n"]
+    ys, dirs, seen, stream, t = _run_file(ctx, lines)
+    ctx.ob("R1", ys == ["feature(a)", "feature(b)"], "every feature line before the FASTA section is yielded, in file order; nothing after it", func=f, sig="file pass yields %s" % ys)
+    ok = bool(seen) and all(isinstance(l, str) and not l.endswith(("\n", "\r")) for l, _d in seen)
+    ctx.ob("R1", ok, "the line terminator is removed before the line is classified and parsed", func=f,
+           sig="lines parsed: %s" % ["terminated" if isinstance(l, str) and l.endswith(("\n", "\r")) else "stripped" for l, _d in seen])
+    okd = bool(seen) and all(getattr(d, "name", None) == "DIALECT" for _l, d in seen)
+    ctx.ob("R1", okd, "lines are parsed with the iterator's dialect", func=f, sig="feature_from_line(dialect=%s)" % sorted({getattr(d, "name", repr(d)) for _l, d in seen}), nontrivial=False)
+    ctx.extra["file_pass_directives"] = list(dirs)
 
 
 def r2(ctx):
-    f = require_func(ctx, "iterators._BaseIterator._directive_handler")
-    d = [p for p in f.params if p != "self"][0]
-    apps = [c for c in calls_in(f.node) if call_attr(c) == "append" and norm(c.func.value) == "self.directives"]
-    ctx.floor("R2", len(apps), 1, "appends to self.directives in _directive_handler")
-    for c in apps:
-        a = c.args[0]
-        ok = isinstance(a, ast.Subscript) and is_name(a.value, d) and isinstance(a.slice, ast.Slice) and a.slice.upper is None and \
-            a.slice.lower is not None and ctx.folder.try_fold(a.slice.lower, f.module.name, default=None) == len("##")
-        ctx.ob("R2", ok, "a directive is recorded without its leading '##' (and nothing else removed)", node=c, func=f,
-               sig="directive stored as %s" % norm(a))
-    fi = require_func(ctx, "iterators._FileIterator._custom_iter")
-    hc = [c for c in calls_in(fi.node) if call_attr(c) == "_directive_handler"]
-    ctx.floor("R2", len(hc), 1, "directive handler calls")
-    loopvar = None
-    for c in hc:
-        ok = len(c.args) == 1 and isinstance(c.args[0], ast.Name)
-        ctx.ob("R2", ok, "the whole (stripped) line is handed to the directive handler", node=c, func=fi, sig="handler called with %s" % norm(c.args[0]) if c.args else "handler called without the line", nontrivial=False)
+    f = require_func(ctx, "iterators._FileIterator._custom_iter")
+    for line, want in (("##gff-version 3", "gff-version 3"), ("###", "#"), ("## spaced", " spaced"), ("##sequence-region chr1 1 100", "sequence-region chr1 1 100")):
+        ys, dirs, seen, stream, t = _run_file(ctx, [line + "\n"])
+        ctx.ob("R2", dirs == [want], "a directive is recorded without its leading '##' (and nothing else removed)", func=f, sig="directive %r stored as %r" % (line, dirs))
+    ys, dirs, seen, stream, t = _run_file(ctx, ["##b\n", FEATURE_LINE % "x" + "\n", "##a\n", "##b\n"])
+    ctx.ob("R2", dirs == ["b", "a", "b"], "directives are kept in file order, repeats included", func=f, sig="directives of a file: %s" % dirs)
 
 
 def r3(ctx):
+    """The directive list is one object from the iterator to the database: iteration clears and refills it in place, create_db
+    hands that very list to the importer, the importer keeps it, finalisation writes it."""
+    from ..absint import Sym, Opaque
+    f = require_func(ctx, "iterators._FileIterator._custom_iter")
+    D = ["stale"]
+    ys, dirs, seen, stream, t = _run_file(ctx, ["##one\n", FEATURE_LINE % "x" + "\n", "##two\n"], directives=D)
+    ctx.ob("R3", dirs is D, "the directive list captured by create_db (by reference, at peek time) is the one iteration keeps filling: "
+           "iteration never re-binds self.directives (it clears the list in place)", func=f,
+           sig="iteration fills the captured list" if dirs is D else "_custom_iter re-binds self.directives",
+           detail=None if dirs is D else "create_db stored the old list object in the importer before the import iterates; directives found after re-binding land in a list the importer never sees")
+    ctx.ob("R3", list(dirs) == ["one", "two"], "every pass over the file starts from an empty directive list (peeking and importing do not double them)", func=f,
+           sig="second pass leaves %s" % list(dirs))
+    # create_db -> importer
     cd = require_func(ctx, "create.create_db")
-    cap = [n for n in ast.walk(cd.node) if isinstance(n, ast.Assign) and norm(n.targets[0]) == "kwargs['directives']"]
+    from .c13 import _run
+    n = 0
+    for fmt in ("gff3", "gtf"):
+        holder = {}
+
+        def s_di(i, pos, kw, node):
+            o = Opaque("ITER", "obj")
+            o.attrs["dialect"] = {"fmt": fmt}
+            o.attrs["directives"] = Opaque("ITER.directives", "list")
+            holder["d"] = o.attrs["directives"]
+            return o
+        for t in _run(ctx, cd, {"data": Sym("data", "str", True), "dbfn": Sym("dbfn", "str", True)}, summaries={"iterators.DataIterator": s_di}):
+            for e in t.events:
+                if e[0] == "construct" and e[1] in ("create._GFFDBCreator", "create._GTFDBCreator"):
+                    n += 1
+                    got = e[3].get("directives")
+                    ok = got is holder.get("d") or (isinstance(got, Opaque) and got.name == "ITER.directives")
+                    ctx.ob("R3", ok, "create_db hands the iterator's directive list (the object itself) to the importer", func=cd,
+                           sig="importer directives := %s" % ("iterator.directives" if ok else repr(got)))
     fin = require_func(ctx, "create._DBCreator._finalize")
-    reads_iter = any("self.iterator.directives" in norm(n) for n in ast.walk(fin.node) if isinstance(n, ast.Attribute))
-    if reads_iter:
-        ctx.ob("R3", True, "finalisation reads the directives from the iterator after the import", func=fin,
-               sig="sink reads iterator.directives after population")
-        return
-    ctx.require(cap, "create_db no longer hands iterator.directives to the importer and _finalize does not read the iterator")
-    by_ref = norm(cap[0].value) == "iterator.directives"
-    ctx.ob("R3", by_ref or "list(" in norm(cap[0].value) is False, "create_db hands the iterator's directive list to the importer", node=cap[0], func=cd,
-           sig="importer directives := %s" % norm(cap[0].value), nontrivial=False)
-    # captured by reference before iteration: no method may re-bind the attribute afterwards
-    base = ctx.proj.cls("iterators._BaseIterator")
-    n_checked = 0
-    for c in ctx.proj.subclasses(base):
-        for m in c.methods.values():
-            ctx.touch(m)
-            if m.name == "__init__":
-                continue
-            n_checked += 1
-            for n in ast.walk(m.node):
-                tg = []
-                if isinstance(n, ast.Assign):
-                    tg = n.targets
-                elif isinstance(n, (ast.AugAssign, ast.AnnAssign)):
-                    tg = [n.target]
-                for t in tg:
-                    if norm(t) == "self.directives" and not isinstance(n, ast.AugAssign):
-                        ctx.ob("R3", False,
-                               "the directive list captured by create_db (by reference, at peek time) is the one iteration keeps filling: "
-                               "no method reachable from iteration may re-bind self.directives (clear it in place instead)",
-                               node=n, func=m, sig="%s re-binds self.directives (%s)" % (m.name, norm(n)),
-                               detail="create_db stored the old list object in the importer before the import iterates; directives found "
-                                      "after re-binding land in a list the importer never sees")
-    ctx.ob("R3", n_checked >= 4, "iterator methods inspected for re-binding of the captured directive list", func=cd,
-           sig="alias rule evaluated over the iterator classes", nontrivial=False)
+    reads_iter = any("iterator.directives" in norm(x) for x in ast.walk(fin.node) if isinstance(x, ast.Attribute))
+    ctx.ob("R3", n >= 2 or reads_iter, "the importer gets at the iterator's directives", func=cd, sig="%d importer constructions carry the directive list" % n, nontrivial=False)
     init = require_func(ctx, "create._DBCreator.__init__")
-    asg = [n for n in ast.walk(init.node) if isinstance(n, ast.Assign) and norm(n.targets[0]) == "self.directives"]
-    ok = bool(asg) and all(norm(n.value) == "directives" for n in asg)
-    ctx.ob("R3", ok, "the importer keeps the list it was given (no copy at construction)", func=init,
-           sig="importer self.directives := %s" % [norm(n.value) for n in asg])
+    GIVEN = Opaque("GIVEN", "list")
+    for t in _run(ctx, init, {"data": Sym("data", "any", True), "dbfn": Sym("dbfn", "str", True), "directives": GIVEN}, self_obj=Opaque("self", "obj"),
+                  summaries={"iterators.DataIterator": lambda i, pos, kw, node: Opaque("ITER", "obj")}):
+        sets_ = [e[3] for e in t.events if e[0] == "setattr" and e[2] == "directives" and getattr(e[1], "name", None) == "self"]
+        ok = bool(sets_) and isinstance(sets_[-1], Opaque) and sets_[-1].name == "GIVEN"
+        ctx.ob("R3", ok, "the importer keeps the list it was given (no copy at construction)", func=init, sig="importer self.directives := %r" % (sets_[-1] if sets_ else None))
 
 
 def r4(ctx):
+    from ..absint import Opaque
+    from .c13 import _run
+    from .. import sql as S
     fin = require_func(ctx, "create._DBCreator._finalize")
-    sites = [s for s in execute_sites(ctx, [fin]) if s.stmts and s.stmts[0].verb == "INSERT" and s.stmts[0].table.lower() == "directives"]
-    ctx.ob("R4", len(sites) >= 1, "finalisation writes the directives to the database", func=fin,
-           sig="directives persisted by _finalize" if sites else "_finalize never inserts into `directives`")
-    for s in sites:
-        p = s.params
-        src = None
-        ok = False
-        if isinstance(p, (ast.GeneratorExp, ast.ListComp)) and len(p.generators) == 1 and not p.generators[0].ifs:
-            g = p.generators[0]
-            src = g.iter
-            ok = isinstance(p.elt, ast.Tuple) and len(p.elt.elts) == 1 and isinstance(g.target, ast.Name) and is_name(p.elt.elts[0], g.target.id)
-        srcs = norm(src) if src is not None else None
-        if isinstance(src, ast.Name):
-            from ..util import single_assignment
-            v = single_assignment(fin.node, src.id)
-            srcs = norm(v) if v is not None else srcs
-        ctx.ob("R4", ok and srcs == "self.directives" and s.method == "executemany",
-               "one row per directive, in list order (no sorting, filtering or de-duplication)", node=s.call, func=fin,
-               sig="directives written from %s via %s" % (srcs, norm(p)[:60] if p is not None else None))
+    so = Opaque("self", "obj")
+    so.attrs["directives"] = ["b", "a", "b"]
+    so.attrs["_autoincrements"] = {"gene": 2}
+    n = 0
+    for t in _run(ctx, fin, {}, self_obj=so):
+        rows = []
+        for e in t.executes():
+            text = e[1] if isinstance(e[1], str) else str(e[1])
+            try:
+                st = S.parse(text)
+            except S.SQLError:
+                continue
+            if st.verb == "INSERT" and st.table.lower() == "directives":
+                n += 1
+                rows += [tuple(r) if isinstance(r, (list, tuple)) else (r,) for r in (e[2] if e[3] == "executemany" else [e[2]])]
+        ctx.ob("R4", rows == [("b",), ("a",), ("b",)], "finalisation writes one row per directive, in list order (no sorting, filtering or de-duplication)", func=fin,
+               sig="directives [b, a, b] written as %s" % rows)
+    ctx.ob("R4", n >= 1, "finalisation writes the directives to the database", func=fin, sig="directives persisted by _finalize" if n else "_finalize never inserts into `directives`")
     dbi = require_func(ctx, "interface.FeatureDB.__init__")
-    sel = [s for s in execute_sites(ctx, [dbi]) if s.stmts and s.stmts[0].verb == "SELECT" and s.stmts[0].tables() == ["directives"]]
+    from ..util import closure
+    pool = closure(ctx, dbi)
+    sel = [s for s in execute_sites(ctx, pool) if s.stmts and s.stmts[0].verb == "SELECT" and s.stmts[0].tables() == ["directives"]]
     ctx.floor("R4", len(sel), 1, "SELECT ... FROM directives sites")
     st = sel[0].stmts[0]
     ok = len(st.cols) == 1 and st.cols[0][0][0] == "col" and st.cols[0][0][2].lower() == "directive" and st.where is None and not st.distinct and not st.order_by
-    ctx.ob("R4", ok, "opening a database reads every stored directive", node=sel[0].call, func=dbi, sig="directives read: %s" % " ".join(sel[0].sql.text.split()))
-    asg = [n for n in ast.walk(dbi.node) if isinstance(n, ast.Assign) and norm(n.targets[0]) == "self.directives"]
-    ok = bool(asg) and isinstance(asg[0].value, ast.ListComp) and norm(asg[0].value.elt).endswith("[0]")
-    ctx.ob("R4", ok, "db.directives is the list of the stored strings in row order", func=dbi, sig="db.directives := %s" % (norm(asg[0].value) if asg else None))
+    ctx.ob("R4", ok, "opening a database reads every stored directive", node=sel[0].call, func=sel[0].func, sig="directives read: %s" % " ".join(sel[0].sql.text.split()))
+    from ..flow import Flow, show
+    fl = Flow(ctx, pool)
+    asg = [(g, x) for g in pool for x in ast.walk(g.node) if isinstance(x, ast.Assign) and any(isinstance(t_, ast.Attribute) and t_.attr == "directives" for t_ in x.targets)]
+    key = ("row", (sel[0].func.qual, sel[0].call.lineno, sel[0].call.col_offset))
+    ok = False
+    shown = None
+    for g, x in asg:
+        ts = fl.terms(x.value, g)
+        shown = ", ".join(sorted(show(t_) for t_ in ts))
+        ok = ok or any(t_ == ("op", "listcomp", ("pos", key, 0)) for t_ in ts)
+    ctx.ob("R4", ok, "db.directives is the list of the stored strings in row order", func=dbi, sig="db.directives := %s" % ("[row[0] for each row]" if ok else shown))
 
 
 def check(ctx):
